@@ -266,7 +266,11 @@ def deser_table(fn_node, enum_name):
         elif cons.get('k') == 'struct_lit':
             for f in cons['fields']:
                 fields[f['name']] = _arg_source(f['value'], bname, alias)
-        table[camel_to_snake(mem)] = {'variant': v, 'fields': fields, 'l': arm['l'], 'raw_member': mem}
+        # element-wise rebuild: `for x in <binder>.iter() { .. out.push(..) }`
+        loops_over_payload = bool(bname) and any(
+            n.get('k') == 'for' and bname in idents_in(n['iter']) for n in walk(arm['body']))
+        table[camel_to_snake(mem)] = {'variant': v, 'fields': fields, 'l': arm['l'], 'raw_member': mem,
+                                      'loops_over_payload': loops_over_payload}
     return table
 
 
@@ -317,7 +321,7 @@ def compare_codec(ctx, rule, label, ser_fn, deser_fn, enum_name, file_hint, sche
             if setter is None or src is None:
                 continue
             if setter in ('payload', 'payload-len'):
-                good = src in ('payload', 'payload-derived')
+                good = src in ('payload', 'payload-derived') or d.get('loops_over_payload', False)
             else:
                 good = (src == setter)
             fdetail.append('%s: set_%s/%s' % (key, setter, src))
@@ -371,8 +375,8 @@ def tbl7_partition_codec(ctx):
                       'CodecOp / DataSection / EncodingType variants and on their fields', floor=28)
     ast = ctx.ast
     f = 'disk_store/partition_segment.rs'
-    ser = ast.fn('PartitionSegment::serialize', f)
-    de = ast.fn('PartitionSegment::deserialize', f)
+    ser = ast.fn_closure('PartitionSegment::serialize', f)
+    de = ast.fn_closure('PartitionSegment::deserialize', f)
     schema = capnp_schema(ctx.repo, 'partition_segment.capnp')
     conv = {k: [camel_to_snake(x[0].upper() + x[1:]) for x in v] for k, v in schema.items()}
     compare_codec(ctx, 'TBL-7', 'CodecOp', ser, de, 'CodecOp', 'src/' + f,
@@ -448,8 +452,8 @@ def tbl8_event_buffer_codec(ctx):
                       'the same capnp members in both directions', floor=11)
     ast = ctx.ast
     f = 'locustdb-serialization/src/event_buffer.rs'
-    ser = ast.fn('EventBuffer::serialize_builder', f)
-    de = ast.fn('EventBuffer::deserialize_reader', f)
+    ser = ast.fn_closure('EventBuffer::serialize_builder', f)
+    de = ast.fn_closure('EventBuffer::deserialize_reader', f)
     schema = capnp_schema(ctx.repo, 'wal_segment.capnp')
     conv = {k: {camel_to_snake(x[0].upper() + x[1:]) for x in v} for k, v in schema.items()}
     data_members = set()
@@ -482,8 +486,8 @@ def tbl9_catalogue_codec(ctx):
                       'get_x initialises', floor=7)
     ast = ctx.ast
     f = 'disk_store/meta_store.rs'
-    ser = ast.fn('MetaStore::serialize', f)
-    de = ast.fn('MetaStore::deserialize', f)
+    ser = ast.fn_closure('MetaStore::serialize', f)
+    de = ast.fn_closure('MetaStore::deserialize', f)
     # serialiser: set_x(expr mentioning field y)
     smap = {}
     for meth, node in builder_calls(ser):
@@ -540,8 +544,8 @@ def tbl10_response_codec(ctx):
                        'reader maps back to the same variant; AnyVal likewise', floor=8)
     ast = ctx.ast
     f = 'locustdb-serialization/src/api.rs'
-    ser = ast.fn('Column::serialize_builder', f)
-    de = ast.fn('Column::deserialize_reader', f)
+    ser = ast.fn_closure('Column::serialize_builder', f)
+    de = ast.fn_closure('Column::deserialize_reader', f)
     schema = capnp_schema(ctx.repo, 'api.capnp')
     conv = set()
     for k, v in schema.items():
